@@ -847,10 +847,11 @@ fn errnos_for(sys: &Sys, tier: &str) -> Vec<i32> {
     let quick = tier == "quick";
     let v: Vec<i32> = match sys.nr {
         SYS_OPEN | SYS_OPENAT | SYS_OPENAT2 | SYS_CREAT => {
+            // ENOENT for a file that exists is not injected: it is a false statement about existence, which the
+            // library cannot tell from a missing bucket / missing content, not a failing operation
             let mut v = vec![libc::EIO, libc::EACCES, libc::EMFILE];
             if !quick {
                 v.push(libc::ENFILE);
-                v.push(libc::ENOENT);
             }
             if sys.creates {
                 v.push(libc::ENOSPC);
@@ -858,7 +859,7 @@ fn errnos_for(sys: &Sys, tier: &str) -> Vec<i32> {
             v
         }
         SYS_MKDIR | SYS_MKDIRAT => vec![libc::EACCES, libc::ENOSPC, libc::EIO],
-        SYS_WRITE | SYS_PWRITE64 | SYS_WRITEV => vec![libc::EIO, libc::ENOSPC, libc::EDQUOT, libc::EINTR],
+        SYS_WRITE | SYS_PWRITE64 | SYS_WRITEV => vec![libc::EIO, libc::EINTR, libc::ENOSPC, libc::EDQUOT],
         SYS_READ | SYS_PREAD64 | SYS_READV => vec![libc::EIO, libc::EINTR],
         SYS_RENAME | SYS_RENAMEAT | SYS_RENAMEAT2 => vec![libc::EACCES, libc::EIO, libc::ENOSPC, libc::EXDEV],
         SYS_UNLINK | SYS_UNLINKAT | SYS_RMDIR => vec![libc::EACCES, libc::EIO],
@@ -948,6 +949,8 @@ fn enumerate_faults(sc: &Value, census: &Sub, tier: &str) -> Vec<Value> {
                 if ev.sys.data_write {
                     let len = if ev.ret > 0 { ev.ret as u64 } else { ev.sys.len.unwrap_or(0) };
                     if len >= 2 {
+                        // a pure short write (the retry of the remainder succeeds) is legal POSIX behaviour: the call must still be truthful
+                        out.push(f(Action::Short(len / 2)));
                         out.push(f(Action::ShortThenErr(len / 2, libc::ENOSPC)));
                         if tier != "quick" {
                             out.push(f(Action::ShortThenErr(1, libc::EIO)));
@@ -1004,13 +1007,37 @@ pub fn run_scenario(ctx: &mut Ctx, _spec: &CheckSpec, sc: &Value, run_id: &str) 
             std::mem::swap(&mut c2, &mut { census });
             absorb(&mut out, c2, false);
             out.log = census_trace.iter().take(60).map(|l| json!(l)).collect();
+            let pairs = sc["plan"]["pairs"].as_bool().unwrap_or(false);
+            let mut npairs = 0u64;
             for (i, f) in faults.iter().enumerate() {
                 let plan = json!({"faults":[f],"schedule":{"policy":"first"}});
                 let sub = run_plan(ctx, sc, &plan, &format!("{run_id}f{i}"));
+                // fault pairs (thorough): a second errno on a call that the first fault's error path goes on to make
+                let mut second: Vec<Value> = Vec::new();
+                if pairs && f["action"]["a"] == "errno" {
+                    let at = f["at"].as_u64().unwrap_or(0) as usize;
+                    let later: Vec<&Event> = sub.events.iter().filter(|e| e.client == 0 && e.ord > at && e.action == Action::Exec && e.op.is_some()).collect();
+                    let mut r = Rng::new(mix(at as u64, f["action"]["e"].as_u64().unwrap_or(0)));
+                    for _ in 0..2.min(later.len()) {
+                        let ev = later[r.idx(later.len())];
+                        let es = errnos_for(&ev.sys, &tier);
+                        let e2 = es[r.idx(es.len())];
+                        second.push(json!({"client":0,"at":ev.ord,"action":{"a":"errno","e":e2}}));
+                    }
+                }
                 absorb(&mut out, sub, true);
+                for (j, f2) in second.iter().enumerate() {
+                    let plan = json!({"faults":[f, f2],"schedule":{"policy":"first"}});
+                    let sub = run_plan(ctx, sc, &plan, &format!("{run_id}f{i}p{j}"));
+                    absorb(&mut out, sub, true);
+                    npairs += 1;
+                }
                 if out.harness.is_some() {
                     break;
                 }
+            }
+            if npairs > 0 {
+                *out.probes.entry("fault_pairs_injected".into()).or_insert(0) += npairs;
             }
             *out.probes.entry("fault_points_enumerated".into()).or_insert(0) += faults.len() as u64;
         }
@@ -1151,7 +1178,13 @@ pub fn generate(id: &str, tier: &str, r: u64, rng: &mut Rng) -> Value {
     let mut sc = match id {
         "C03" => gen_c03(rng, r),
         "C04" => gen_c04(rng, r),
-        "C13" => gen_c13(rng, r),
+        "C13" => {
+            let mut sc = gen_c13(rng, r);
+            if tier != "quick" && r % 3 == 1 {
+                sc["plan"]["pairs"] = json!(true);
+            }
+            sc
+        }
         "C15" => gen_c15(rng, r),
         "C07" => gen_c07(rng, r, tier),
         _ => json!({}),
